@@ -42,6 +42,7 @@ def project(np, o):
             'st': {'o': bool(st.get('overflow')), 'u': bool(st.get('underflow')), 'i': bool(st.get('inaccuracy'))},
             # the indicator as reported; a MISSING key is reported as the value that cannot be right
             'ext': bool(st['extended_prec']) if 'extended_prec' in st else (int(o.n_word) < 64),
+            'stkeys': sorted(str(k) for k in st.keys()),
             'wf': {'ni': int(o.n_int), 'up': wdy_small(o.upper), 'lo': wdy_small(o.lower), 'pr': wdy_small(o.precision),
                    'dt': chars(o.dtype)}}
 
@@ -74,6 +75,7 @@ def run_behaviour(fx, np, bid, h, variant=0):
         act = a['act']
         raised, err, cont_ok = False, '', True
         tgt = a.get('x') if act in ('New', 'Store', 'SetItem', 'Resize', 'Reset', 'SetCfg', 'SetCfgBad', 'Assign', 'Drop') else \
+            a.get('z') if act == 'BinOpOut' else \
             (a.get('y') if act in ('GetItem', 'CtorLike', 'Like', 'LikeShallow', 'CopyShallow', 'DeepCopy', 'RShiftKeep', 'Invert') else a.get('z'))
         for r in rec.values():
             if r is not None:
@@ -120,7 +122,12 @@ def run_behaviour(fx, np, bid, h, variant=0):
                 adopt(a['y'], heap[a['x']].deepcopy())
             elif act == 'Resize':
                 t = a['fmt']
-                if (variant + i) % 2:
+                o = heap[a['x']]
+                if (variant + i) % 3 == 2:
+                    # only the sizes that change are passed (the others stay None)
+                    o.resize(t['s'] if t['s'] != bool(o.signed) else None, t['w'] if t['w'] != o.n_word else None,
+                             t['f'] if t['f'] != o.n_frac else None)
+                elif (variant + i) % 3 == 1:
                     heap[a['x']].resize(t['s'], t['w'], t['f'])
                 else:
                     heap[a['x']].resize(dtype='fxp-%s%d/%d' % ('s' if t['s'] else 'u', t['w'], t['f']))
@@ -155,6 +162,19 @@ def run_behaviour(fx, np, bid, h, variant=0):
             elif act == 'BinOp':
                 x, y = heap[a['x']], heap[a['y']]
                 adopt(a['z'], (x + y) if a['op'] == 'add' else (x * y))
+            elif act == 'BinOpOut':
+                x, y, z = heap[a['x']], heap[a['y']], heap[a['z']]
+                fn = fx.add if a['op'] == 'add' else fx.mul
+                if (variant + i) % 2:
+                    r = fn(x, y, out=z)
+                else:
+                    x.config.op_out = z
+                    try:
+                        r = (x + y) if a['op'] == 'add' else (x * y)
+                    finally:
+                        x.config.op_out = None
+                if r is not z:
+                    raise AssertionError('result is not the out object')
             elif act == 'Neg':
                 adopt(a['z'], -heap[a['x']])
             elif act == 'Drop':
